@@ -297,7 +297,11 @@ func (s *store) dispatchRequests() {
 			} else {
 				wdl.Printf("upgrade(local): upgrading '%s'", req.username)
 				verifEvent("upgrade.begin", req.username, req.password)
-				if resp := s.update(req.username, req.password); resp.err != nil {
+				// the request was queued at login time: only apply it if the password is still the
+				// current one (the user may have changed or lost it in the meantime)
+				if ok, _, upgradeable, _, _ := s.dir.Authenticate(req.username, req.password); !ok || !upgradeable {
+					wdl.Printf("upgrade(local): ignoring outdated upgrade request for '%s'", req.username)
+				} else if resp := s.update(req.username, req.password); resp.err != nil {
 					wl.Printf("upgrade(local): failed for '%s': %v", req.username, resp.err)
 				} else {
 					wdl.Printf("upgrade(local): successfully upgraded '%s'", req.username)
